@@ -1070,4 +1070,64 @@ $GEN{$NG(a int)}{int}{
 	$YIELD{sum(nil, "")}
 	$RET
 }`, entries: []*Entry{drive("$NG", "int", 1, nil)}},
+	// ranges the compiler leaves native (pointer to array, labelled, type-parameter operand) inside plain closures, each
+	// with break/continue that belong to the range itself
+	{name: "native-ranges-with-own-break-continue-in-nested-closure", decls: `
+$GEN{$NG(a int)}{int}{
+	firstBig := func(arr *[5]int) any {
+		idx := -1
+		for i, v := range arr {
+			if v < 3 {
+				continue
+			}
+			idx = i
+			break
+		}
+		return idx
+	}
+	count := func(xs []int) (n int) {
+	scan:
+		for _, x := range xs {
+			if x == 0 {
+				continue
+			}
+			if x < 0 {
+				break
+			}
+			for k := 0; k < x; k++ {
+				if k == 2 {
+					continue scan
+				}
+				n++
+			}
+		}
+		return
+	}
+	$YIELD{firstBig(&[5]int{1, 2, a + 2, 7, 9}).(int)}
+	$YIELD{count([]int{1, 0, 3, a, -1, 5})}
+	$RET
+}`, entries: []*Entry{drive("$NG", "int", 1, nil)}},
+	{name: "type-parameter-range-with-break-in-generic-generator-closure", decls: `
+$GEN{$NG[S ~[]int](xs S)}{int}{
+	upTo := func(limit int) (t int) {
+		for _, x := range xs {
+			if x > limit {
+				break
+			}
+			if x%2 == 0 {
+				continue
+			}
+			t += x
+		}
+		return
+	}
+	$YIELD{upTo(3)}
+	$YIELD{upTo(100)}
+	$RET
+}
+
+$GEN{$NH(a int)}{int}{
+	$YFROM{$NG([]int{1, 2, 3, a + 4, 5, 200, 7})}
+	$RET
+}`, entries: []*Entry{drive("$NH", "int", 1, nil)}},
 }
